@@ -771,6 +771,16 @@ class PArpeggiator(PStochasticPattern):
         self.pos = 0
         self.restart()
 
+    def seed(self, seed: int = None):
+        #------------------------------------------------------------------------
+        # The RANDOM ordering is drawn when the arpeggio is (re)started, which
+        # first happens in the constructor: redraw it from the new seed, so that
+        # a seeded arpeggiator is reproducible from its first cycle.
+        #------------------------------------------------------------------------
+        super().seed(seed)
+        self.restart()
+        return self
+
     def __next__(self):
         if len(self._notes) == 0:
             self.pos = 0
